@@ -141,6 +141,7 @@ def generate(seed, tier="quick"):
     sc["faults"] = faults
     sc["between_runs"] = {"unrelated_draws": r.choice([0, 1, 5, 1000]), "sleep": r.choice([0.0, 0.4, 2.5, 90.0]),
                           "new_session": r.random() < 0.5}
+    sc["reuse_objects"] = r.random() < 0.4  # the repeat run re-uses the first run's engine / process / product objects
     return sc
 
 
@@ -324,11 +325,13 @@ def _same(a, b):
     return True, None
 
 
-def _run_once(wd, sc, run_index):
+def _run_once(wd, sc, run_index, reuse=None):
     wd.run_index = run_index
     mark = {"draws": len(wd.draws), "consumed": len(wd.consumed), "samples": len(wd.samples),
-            "pools": len(wd.pool_inits), "batches": len(wd.row_batches), "control": len(wd.control)}
-    eng, product, go = _build(sc)
+            "pools": len(wd.pool_inits), "batches": len(wd.row_batches), "control": len(wd.control),
+            "uniforms": len(wd.uniform_log)}
+    eng, product, go = reuse if reuse is not None else _build(sc)
+    mark["built"] = (eng, product, go)
     mark["draws_after_build"] = len(wd.draws)
     try:
         stats = go()
@@ -432,6 +435,22 @@ def _oracles_for_run(wd, sc, mark, end):
     for sig, rows in u3.items():
         V.append({"sig": sig, "oracle": "U3", "detail": {"rows_affected": len(rows), "max_multiplicity": max(m for _, m in rows),
                                                           "example_row_serial": rows[0][0]}})
+    # ---- Uv: a uniform variate handed out twice by the library's variate helper ------------------------
+    seen_u = {}
+    dup_u, ex_u = 0, None
+    for (run_i, lvl, ctxn, oid, arr) in wd.uniform_log[mark.get("uniforms", 0):end.get("uniforms", len(wd.uniform_log))]:
+        for x in arr.tolist():
+            if x in seen_u:
+                dup_u += 1
+                if ex_u is None:
+                    ex_u = (seen_u[x], (lvl, ctxn, oid), x)
+            else:
+                seen_u[x] = (lvl, ctxn, oid)
+    if dup_u:
+        a_, b_, x_ = ex_u
+        rel = "same-helper-object" if a_[2] == b_[2] else ("across-levels" if a_[0] != b_[0] else "across-helper-objects")
+        sig = f"C08.Uv|a uniform variate was handed out twice by the variate helper|{rel}|{cls}"
+        V.append({"sig": sig, "oracle": "Uv", "detail": {"duplicates": dup_u, "first": list(a_[:2]), "second": list(b_[:2]), "value": x_}})
     # ---- D -------------------------------------------------------------------------------------
     seen_diff = {}
     dups = 0
@@ -458,10 +477,11 @@ def _oracles_for_run(wd, sc, mark, end):
 def execute(wd, sc):
     V, errors = [], []
     info = {}
+    wd.track_uniforms = True
     wd.faults.update({f: 1 for f in sc.get("faults", [])})
     obs1, err1, m1 = _run_once(wd, sc, 0)
     end1 = {"draws": len(wd.draws), "consumed": len(wd.consumed), "samples": len(wd.samples),
-            "pools": len(wd.pool_inits)}
+            "pools": len(wd.pool_inits), "uniforms": len(wd.uniform_log)}
     if err1:
         errors.append({"kind": err1.split(":")[0], "msg": err1})
         wd.probes["c08.run_raised"] += 1
@@ -495,7 +515,10 @@ def execute(wd, sc):
             np.random.normal(size=br["unrelated_draws"])  # goes through the seam, current context
             __import__("random").random()
         wd.faults["history.repeat_run"] += 1
-        obs2, err2, m2 = _run_once(wd, sc, 1)
+        reuse = m1.get("built") if sc.get("reuse_objects") else None
+        if reuse is not None:
+            wd.faults["history.engine_reused"] += 1
+        obs2, err2, m2 = _run_once(wd, sc, 1, reuse=reuse)
         if err2:
             errors.append({"kind": err2.split(":")[0], "msg": "second run: " + err2})
         else:
@@ -504,12 +527,13 @@ def execute(wd, sc):
             if not same:
                 mode = "jump-times" if sc["product"]["kind"] in ("cds", "ntd") or sc["process"]["kind"].startswith("sde") else "fixed-dates"
                 seedcls = "seed=0" if sc["seed"] == 0 else "seed=int"
-                sig = f"C08.R|seeded single-process run not repeatable|engine={sc['engine']}|mode={mode}|{seedcls}"
+                objs = "same-objects" if reuse is not None else "fresh-objects"
+                sig = f"C08.R|seeded single-process run not repeatable|engine={sc['engine']}|mode={mode}|{seedcls}|{objs}"
                 V.append({"sig": sig, "oracle": "R",
                           "detail": {"first_difference_in": where, "price_run1": obs1["price"].tolist(),
                                      "price_run2": obs2["price"].tolist()}})
             end2 = {"draws": len(wd.draws), "consumed": len(wd.consumed), "samples": len(wd.samples),
-                    "pools": len(wd.pool_inits)}
+                    "pools": len(wd.pool_inits), "uniforms": len(wd.uniform_log)}
             for v in _oracles_for_run(wd, sc, m2, end2):
                 if v["sig"] not in {x["sig"] for x in V}:
                     V.append(v)
